@@ -425,11 +425,29 @@ def rule_missing(ctx: Ctx) -> None:  # noqa: C901, PLR0915
     if not flags:
         ctx.add("3-missing", lfs, lfs.node, None, "UNDECIDED: the `exists` part of what _load_from_store returns was not recognised", key="exists-asked-of-store")
     else:
-        dep = " ".join(dependence_text(lfs.node, f_) for f_ in flags)
-        by_value = re.search(r"\b(\w+) is (not )?None\b", dep)
-        asked = any(w in dep for w in (".is_file()", ".exists()", "os.path.isfile(", "os.path.exists("))
-        plain_false = [a_ for a_ in walk_no_nested(lfs.node) if isinstance(a_, ast.Assign) and isinstance(a_.value, ast.Constant) and a_.value.value is False and any(norm(t_) in dep for t_ in a_.targets)]
-        ctx.tri("3-missing", lfs, lfs.node, (asked or bool(plain_false)) and not by_value, bool(by_value) and not plain_false,
+        from ..flow import reaching_values
+
+        cfg_l = ctx.cfg(lfs)
+        ret_nodes = cfg_l.nodes(lambda s_: isinstance(s_, ast.Return) and s_.value is not None)
+        reaching: list[ast.AST] = []
+        for f_ in flags:
+            if isinstance(f_, ast.Name) and ret_nodes:
+                rv = reaching_values(cfg_l, f_.id, ret_nodes[-1])
+                reaching += [v for _n, v in rv] if rv else [f_]
+            else:
+                reaching.append(f_)
+        by_value = None
+        asked = plain_false = False
+        for v in reaching:
+            dep = dependence_text(lfs.node, v) if not isinstance(v, ast.Constant) else ""
+            # only what the value itself is computed from - not the flag's other definitions
+            own = norm(v) + " " + " ".join(dependence_text(lfs.node, ast.Name(id=x.id, ctx=ast.Load())) for x in ast.walk(v) if isinstance(x, ast.Name) and not any(isinstance(f_, ast.Name) and f_.id == x.id for f_ in flags))
+            m_ = re.search(r"\b(\w+) is (not )?None\b", own)
+            by_value = by_value or m_
+            asked |= any(w in own for w in (".is_file()", ".exists()", "os.path.isfile(", "os.path.exists("))
+            plain_false |= isinstance(v, ast.Constant) and v.value is False
+            _ = dep
+        ctx.tri("3-missing", lfs, lfs.node, (asked or plain_false) and not by_value, bool(by_value),
                 "whether an output is stored is decided by asking the store", f"`{by_value.group(0) if by_value else ''}` decides whether an output is stored: a stored None (a function that returns None) counts as missing - "
                 "the function is run again on every resume instead of its stored result being used", "how the `exists` flag is computed was not recognised", key="exists-asked-of-store")
 
@@ -703,6 +721,7 @@ def check(ctx: Ctx) -> None:
 
 U, RIF, R, D, A = "pipefunc/_utils.py", "pipefunc/map/_run_info.py", "pipefunc/map/_run.py", "pipefunc/map/_storage_array/_dict.py", "pipefunc/map/adaptive.py"
 MUTANTS = [
+    Mutant("exists-read-off-the-value", "pipefunc/map/_run.py", "    if not return_output:\n        outputs = None  # type: ignore[assignment]\n    elif len(outputs) == 1:", "    all_exist = all(output is not None for output in outputs)\n    if not return_output:\n        outputs = None  # type: ignore[assignment]\n    elif len(outputs) == 1:", ("C05.3-missing",), why="round-8 seed C05/23"),
     Mutant("gate-compares-shared-keys-only", "pipefunc/map/_run_info.py", "    equal_inputs = equal_dicts(inputs, old.inputs, verbose=True)\n", "    shared = inputs.keys() & old.inputs.keys()\n    equal_inputs = equal_dicts({k: inputs[k] for k in shared}, {k: old.inputs[k] for k in shared}, verbose=True)\n", ("C05.6-gate",), why="round-4 seed C11/11"),
     Mutant("loaded-returned-bare-F40", R, "        return _StoredOutputs(tuple(output) if isinstance(func.output_name, tuple) else (output,))\n", "        return output\n", ("C05.7-loaded-marked",), why="original F40"),
     Mutant("gate-before-construct-F37", RIF, "        # The previous run info stores the constructed internal shapes, compare like with like\n        internal_shapes = _construct_internal_shapes(internal_shapes, pipeline)\n        if run_folder is not None:\n            if cleanup:\n                _cleanup_run_folder(run_folder)\n            else:\n                _compare_to_previous_run_info(pipeline, run_folder, inputs, internal_shapes)\n        _check_inputs(pipeline, inputs)\n",
